@@ -791,6 +791,7 @@ func check(fc *fontCase) verdict {
 		return v
 	}
 	parts := []any{}
+	abstained := map[int]bool{} // glyphs whose charstring lies in the region TN5177 leaves open
 	for gi, g := range f.Glyphs {
 		code := file.CharStrings[gi]
 		parts = append(parts, code)
@@ -815,6 +816,7 @@ func check(fc *fontCase) verdict {
 				// coordinate, so the charstring is neither right nor wrong by
 				// the specification: the reference abstains on this glyph.
 				lab["bigdelta-implicit-flex-delta(reference abstains)"] = true
+				abstained[gi] = true
 				continue
 			}
 			v.fail = fmt.Sprintf("%s is not a legal Type 2 charstring: %v", ctx(), rerr)
@@ -868,6 +870,12 @@ func check(fc *fontCase) verdict {
 		if over32000(g) && stats.IsListed("C05", "operand-above-32000") {
 			// the decoder's clamp of path operands at +-32000 is a listed C05 finding
 			stats.Excluded("C05/operand-above-32000")
+			continue
+		}
+		if abstained[gi] {
+			// what an interpreter makes of an implicit flex delta beyond the
+			// 16.16 range is not specified: the library's decoder is not
+			// judged on it either
 			continue
 		}
 		if err := cmpRead(g, back.Glyphs[gi]); err != nil {
